@@ -96,6 +96,18 @@ Theorem C14_hidden_never : forall t w path n,
 Proof. exact (@WinInputProofs.C14_hidden_never). Qed.
 Print Assumptions C14_hidden_never.
 
+(* ... the synthesised drag events included: nothing is sent to a drag source that is hidden or
+   lies below a hidden window (to_source_spec), and no event of a whole terminal mouse event --
+   START, DRAG, OUTSIDE, DROP, STOP, RELEASE, whatever the drag state -- goes to such a window.
+   (Defect C14-c, repaired: the direct delivery to the drag source looked at the source's own
+   visibility only.) *)
+Theorem C14_hidden_never_drag : forall claims t w path n ty btn line col,
+  NoDup (t_ids t) -> t_path w t = Some path -> In n path -> w_vis (t_info n) = false ->
+  to_source_spec claims t (Some w) ty btn line col = [] /\
+  forall ds ty' e, raw_ty ty' -> In e (fst (mouse_spec claims t ds ty' btn line col)) -> iev_win e <> w.
+Proof. exact (@WinInputProofs.C14_hidden_never_drag). Qed.
+Print Assumptions C14_hidden_never_drag.
+
 (* the drag bracket rules, for every sequence of raw events *)
 Theorem C14_drag : forall claims t pre ty btn line col,
   NoDup (t_ids t) -> raw_ty ty ->
